@@ -32,6 +32,22 @@ MANIFEST = {
             "RecursionError). The model is tied to the code by translator/uml.py (branch conditions, template filters, file-name dictionaries, "
             "template directory listing regenerated from umlgen.py) and by differential runs on the shipped diagrams and mutants of them "
             "(GetOperationPerVisibility vs ops_of with the theorem's fuel, generated file set vs files_of and vs Spec.expected_files). "
+            "INCLUDES AND FORWARD DECLARATIONS (Model/UmlIncl.v over the raw diagram -- qualified type names, modifiers, multiplicities, inheritance "
+            "and association ends: Class.GetNotForwardDeclarable... / GetForwardDeclarable... / DoAttributes...RequireVector, ClassDiagram."
+            "GetNamespaceDependencies, LanguageCPP.GetNotForwardDeclarableHeaderIncludes / GetForwardDeclarableHeaderIncludes / GetForwardDeclarations and "
+            "their helpers): C19_includes_cover (names well formed: for every class k of the diagram that the header of c uses BY VALUE -- base class, "
+            "realised interface, value member, value parameter or return, composition target -- the header has the line #include \"<k's namespace as "
+            "seen from c's folder>/<k>.h\"; C19_include_resolves: that path is k's header as C19_files places it, relative to c's folder or to the "
+            "root; also for a same-named class of another package, a class without package, a class whose name occurs in its package's name: "
+            "K-C19-11/12 repaired), C19_source_includes_cover (pointer-only types are included by the source file), C19_pointer_use_covered + "
+            "C19_forward_declared (a type used only through pointer / reference is forward declared in its namespace, or included), C19_vector_included "
+            "(a to-many member, association end or parameter brings <vector>), C19_includes_sorted (both dependency lists are sorted by FULL name without "
+            "duplicates and depend only on the SET of names, not on set iteration order or insertion count: same-named types of different packages are "
+            "ordered by their full names; with C06_hash_order_irrelevant), C19_includes_cover_from_diagram / C19_vector_from_diagram (the same from any project hosting the diagram's rows: idiagram_of D = "
+            "the raw diagram of the objects read, tied to the real objects), C19_includes_source_shape (primitive list, branch conditions, template "
+            "sections, umlgen's calls pinned). Ties: the real functions vs the model on every class of every input (F), and the #include / forward-"
+            "declaration lines read from the generated headers and sources vs the model's (E); independent oracle: every by-value class of the diagram "
+            "is included under a path that resolves to its generated header. "
             "C# BACK END (Model/UmlCs.v: the shared generator class over the C# template directory, the project files, LanguageCsharp."
             "GetOperationPerVisibility = the same recursion on the C# view of the diagram -- no constness, ref / out parameter types -- and the text of "
             "an emitted method): C19_files_cs (under files_hyp_cs exactly one .cs per generated element -- class, interface, enumeration, struct -- in "
@@ -95,7 +111,9 @@ MANIFEST = {
             "C#: modelled and proved like C++ (file set, realised operations, every operation once, namespace wrap), observed with a tokenizer; "
             "NOT checked: that a C# compiler accepts the output (none available) -- e.g. whether 'override' on a method implementing an INTERFACE "
             "member is accepted is outside what is proved or observed. K-C19-8 (every 'virtual' in a realised C# method became 'override', also "
-            "inside names) is repaired (ad20a65; corpus/C19/cs_virtual_word.json); K-C19-9 (A::B.csproj) is known. K-C19-7 (names lost = < > ; ( ) and were cut at colons) is repaired (b2960c5; corpus/C19/operator_names.json); what remains of mass_replace concerns values: K-C19-10. Known findings K-C19-*.",
+            "inside names) is repaired (ad20a65; corpus/C19/cs_virtual_word.json); K-C19-9 (A::B.csproj) is known. K-C19-7 (names lost = < > ; ( ) and were cut at colons) is repaired (b2960c5; corpus/C19/operator_names.json); what remains of mass_replace concerns values: K-C19-10. K-C19-11 (a class without package dropped its includes) and K-C19-12 (include path of a class whose name occurs in its package's name) "
+            "are repaired (17033ca, f787905; corpus cases). 'Accepted by a C++ compiler' stays an observation (g++), now backed by the include theorems; NOT modelled: "
+            "the includes of attribute TYPES that are templates or typedefs, <string> / <cstdint> (the generator never emits them), user includes. Known findings K-C19-*.",
 }
 MANIFEST["text"] += " " + MANIFEST.pop("adaptor")
 RULE = ("the two shipped class diagrams and mutants of them (1-4 random edits of the parsed object graph: rename/remove/retype classes, "
@@ -235,11 +253,44 @@ def observe(ctx, cd, label, nsf, dclspc, edits, compile_all, touch=(), project=N
             if mf != sorted(tree):
                 ctx.tie_broken("correspondence generated file set vs Uml.files_of", {"diagram": label, "edits": edits, "real": sorted(tree), "model": mf})
         nontrivial = False
+        incl_model = function_level_incl(ctx, cd, label, nsf) if ctx.km is not None else {}
         for path, c in exp.items():
             if path not in tree or path in clash:
                 continue
             text = tree[path]
             base = os.path.basename(path)
+            # E level: the #include lines and the forward-declaration block of the real file are the model's
+            m = incl_model.get(c.ID)
+            if m is not None and not (c.IS_ENUM and not c.IS_STRUCT):
+                head = text.split("/// {{{USER_HEADER_INCLUDES}}}")[0]
+                got_inc = [l.strip() for l in head.split("\n") if l.strip().startswith("#include")]
+                if path.endswith(".h"):
+                    want_inc = m[2]
+                    blk = re.search(r"// Begin Forward declarations\n.*?// End Forward declarations", text, flags=re.S)
+                    got_fwd = blk.group(0).split("\n") if blk else []
+                    if want_inc is not None and (got_inc != want_inc or got_fwd != m[4]):
+                        ctx.tie_broken("correspondence #include / forward-declaration lines of the generated header vs UmlIncl",
+                                       {"diagram": label, "file": path, "real": [got_inc, got_fwd], "model": [want_inc, m[4]]})
+                    ctx.count("header_include_blocks_compared")
+                elif path.endswith(".cpp"):
+                    if got_inc != ['#include "%s.h"' % c.NAME] + m[3]:
+                        ctx.tie_broken("correspondence #include lines of the generated source file vs UmlIncl",
+                                       {"diagram": label, "file": path, "real": got_inc, "model": m[3]})
+                    ctx.count("source_include_blocks_compared")
+            # independent reading: every class of the diagram that the header uses by value is included under the path of its own header
+            if path.endswith(".h") and not c.IS_ENUM:
+                for fq in by_value_types(cd, c):
+                    ks = [k for k in cd.classes.values() if (k.NAMESPACE + "::" + k.NAME if k.NAMESPACE else k.NAME) == fq]
+                    for k in ks[:1]:
+                        target = [p2 for p2, x in exp.items() if x is k and p2.endswith(".h")]
+                        if not target:
+                            continue
+                        incs = re.findall(r'#include "([^"]+)"', text)
+                        here = os.path.dirname(path)
+                        resolved = {os.path.normpath(os.path.join(here, i)) for i in incs} | {os.path.normpath(i) for i in incs}
+                        if os.path.normpath(target[0]) not in resolved:
+                            fail("%s uses %s by value but does not include %s (includes: %s)" % (path, fq, target[0], incs),
+                                 "uml:%s:%s:missing-include" % (label, base), file=path, finding_class="uml:missing-include")
             # namespace wrap
             parts = c.NAMESPACE.split("::")
             opened = re.findall(r"namespace\s+([\w]*)\s*\{", us.strip_comments(text))
@@ -325,6 +376,59 @@ def observe(ctx, cd, label, nsf, dclspc, edits, compile_all, touch=(), project=N
                 fail("g++ rejects %s (first error in %s: %s): %s" % (rel, culprit, cause, " | ".join(l for l in msg.split("\n") if "error" in l)[:500]),
                      "uml:%s:%s:compile" % (label, culprit), file=rel, finding_class="uml-compile:" + cause)
     return fails, nontrivial
+
+
+def real_includes(cd, c, nsf):
+    """what the real functions give for one class: (not forward declarable, forward declarable, header include lines | None, source include
+    lines, forward declaration lines); None / 'KeyError' / 'RecursionError' where the real code raises"""
+    lang = LanguageCPP.LanguageCPP()
+
+    def lines(t):
+        return [x for x in t.split("\n") if x != ""]
+    try:
+        hdr = lines(lang.GetNotForwardDeclarableHeaderIncludes(c, nsf, True, True))
+    except (KeyError, RecursionError):
+        hdr = None
+    return [list(c.GetNotForwardDeclarableNonPrimitiveTypesLinkedToThis()), list(c.GetForwardDeclarableNonPrimitiveTypesLinkedToThis()), hdr,
+            lines(lang.GetForwardDeclarableHeaderIncludes(c, nsf, True)), lines(lang.GetForwardDeclarations(c))]
+
+
+def function_level_incl(ctx, cd, label, nsf):
+    """real include / forward-declaration functions (vppclassdiagram.Class, LanguageCPP, ClassDiagram.GetNamespaceDependencies) vs
+    Model/UmlIncl.v on every class; returns {class id: model value} for the E-level comparison"""
+    I = us.abstract_incl(cd)
+    res = {}
+    for cid, c in cd.classes.items():
+        real = real_includes(cd, c, nsf)
+        m = ctx.km.call("incl_all", str(len(cd.classes)), nsf, I, cid)
+        model = [[x.decode("utf-8") for x in m[0]], [x.decode("utf-8") for x in m[1]], [x.decode("utf-8") for x in m[2][0]] if m[2] else None,
+                 [x.decode("utf-8") for x in m[3]], [x.decode("utf-8") for x in m[4]]]
+        if real != model:
+            k = next(i for i in range(5) if real[i] != model[i])
+            ctx.tie_broken("correspondence include / forward-declaration functions vs UmlIncl (%s, part %d)" % (c.NAME, k),
+                           {"diagram": label, "class": c.NAME, "nsf": nsf, "real": real[k], "model": model[k]})
+        res[cid] = model
+        ctx.count("function_level_calls_incl")
+    real_ns = [[k, list(v)] for k, v in cd.GetNamespaceDependencies().items()]
+    model_ns = [[x[0].decode("utf-8"), [y.decode("utf-8") for y in x[1]]] for x in ctx.km.call("incl_nsdeps", I)]
+    if real_ns != model_ns:
+        ctx.tie_broken("correspondence ClassDiagram.GetNamespaceDependencies vs UmlIncl.namespace_deps", {"diagram": label, "real": real_ns, "model": model_ns})
+    return res
+
+
+def by_value_types(cd, c):
+    """independent reading: the fully qualified types the header of c needs complete: base classes, value members, value parameters and
+    returns, composition targets"""
+    def ptr(m):
+        return "*" in m or "&" in m
+    out = [i.CLASS_FROM for i in cd.inheritence.values() if i.CLASS_TO_ID == c.ID]
+    out += [a.TYPE for a in c.ATTRIBUTES if not ptr(a.TYPE_MODIFIER)]
+    for o in c.OPERATIONS:
+        out += [p["type"] for p in o.PARAMETERS if not ptr(p["modifier"])]
+        if not ptr(o.RETURN_TYPE_MODIFIER):
+            out.append(o.RETURN_TYPE)
+    out += [a.CLASS_TO for a in cd.associations.values() if a.CLASS_FROM_ID == c.ID and a.TYPE == "Composition"]
+    return sorted(set(out))
 
 
 def function_level_cs(ctx, cd, label):
@@ -531,6 +635,8 @@ def adaptor_ties(ctx):
             ctx.tie_broken("correspondence vppclassdiagram.ExtractClassDiagram vs UmlBlob.load_cdiagram on the shipped project", {"diagram": name, "error": err})
         elif cd is not None and km.call("ub_adaptor", vs.db_v(db), name) != [ub.abstract_view(cd)]:
             ctx.tie_broken("UmlBlob.adaptor differs from the abstract diagram the harness computes from kojen's objects", {"diagram": name})
+        elif cd is not None and (km.call("ub_adaptor_incl", vs.db_v(db), name) or [None])[0] != ub.conv_bytes(us.abstract_incl(cd)):
+            ctx.tie_broken("UmlIncl.adaptor_incl differs from the raw diagram the harness computes from kojen's objects", {"diagram": name})
         elif cd is not None and km.call("ub_adaptor_cs", vs.db_v(db), name) != [ub.abstract_view_cs(cd)]:
             ctx.tie_broken("UmlBlob.adaptor_cs differs from the abstract diagram the harness computes from kojen's objects with LanguageCsharp", {"diagram": name})
         ctx.case(("adaptor-shipped", name))
@@ -809,6 +915,12 @@ def adaptor_case(ctx, stack, cd, seed, meta=None):
         ctx.tie_broken("UmlBlob.adaptor differs from the abstract diagram of the objects read back", info)
     if ctx.km is not None and ctx.km.call("ub_adaptor_cs", vs.db_v(db), name) != [ub.abstract_view_cs(cd2)]:
         ctx.tie_broken("UmlBlob.adaptor_cs differs from the abstract diagram (LanguageCsharp) of the objects read back", info)
+    if ctx.km is not None:
+        got = ctx.km.call("ub_adaptor_incl", vs.db_v(db), name)
+        if not got or got[0] != ub.conv_bytes(us.abstract_incl(cd2)):
+            ctx.tie_broken("UmlIncl.adaptor_incl differs from the raw diagram of the objects read back", info)
+        else:
+            ctx.count("incl_names_ok=%s" % (got[1] == b"1"))
     ctx.count("adaptor_synthesised_projects")
     return path, name, cd2
 
